@@ -22,6 +22,20 @@ where
         ))
     }
 
+    // An I/O error (e.g., the end of the input) keeps its kind; anything else is invalid data.
+    fn into_io_error<E>(e: E) -> io::Error
+    where
+        E: std::error::Error + Send + Sync + 'static,
+    {
+        let kind = e
+            .source()
+            .and_then(|src| src.downcast_ref::<io::Error>())
+            .map(|src| src.kind())
+            .unwrap_or(io::ErrorKind::InvalidData);
+
+        io::Error::new(kind, e)
+    }
+
     let n_bin = read_u32_le(reader).and_then(|n| {
         usize::try_from(n).map_err(|e| io::Error::new(io::ErrorKind::InvalidData, e))
     })?;
@@ -35,15 +49,13 @@ where
         })?;
 
         if id == METADATA_ID {
-            let m =
-                read_metadata(reader).map_err(|e| io::Error::new(io::ErrorKind::InvalidData, e))?;
+            let m = read_metadata(reader).map_err(into_io_error)?;
 
             if metadata.replace(m).is_some() {
                 return duplicate_bin_error(id);
             }
         } else {
-            let chunks =
-                read_chunks(reader).map_err(|e| io::Error::new(io::ErrorKind::InvalidData, e))?;
+            let chunks = read_chunks(reader).map_err(into_io_error)?;
 
             let bin = Bin::new(chunks);
 
